@@ -17,6 +17,7 @@ mod c20;
 mod c12;
 mod c15;
 mod c16;
+mod c13;
 
 pub use util::*;
 
@@ -42,6 +43,7 @@ fn props() -> Vec<Prop> {
         Prop { id: "C12", run: c12::run, gen: c12::gen },
         Prop { id: "C15", run: c15::run, gen: c15::gen },
         Prop { id: "C16", run: c16::run, gen: c16::gen },
+        Prop { id: "C13", run: c13::run, gen: c13::gen },
     ]
 }
 
